@@ -1,0 +1,19 @@
+//go:build verif
+
+// Contracts for the gowp verifier (/verif). Comment-only file: compiled only with -tags verif and
+// contributes no code either way.
+
+package keychain
+
+//@ // ---- the ECDH operation behind every brontide key agreement (BOLT 8: ss = SHA256 of the COMPRESSED, 33-byte serialization of the shared
+//@ // ---- point). Both ends - and both implementations of the interface (this one for ephemeral keys, the wallet's for the static key) - must
+//@ // ---- hash the same bytes; the curve arithmetic and the hash are opaque, what is decided is the data flow: the shared point is
+//@ // ---- priv * pub for THIS private key and the given public key, it is serialized by the library's compressed serializer (never by hand:
+//@ // ---- big.Int.Bytes() drops leading zero bytes) and the result is the hash of exactly that serialization
+//@ func (p *PrivKeyECDH) ECDH
+//@   props C11
+//@   site call AsJacobian: assert arg(0) == pub
+//@   site call ScalarMultNonConst: assert arg(0) == addr(p.PrivKey.Key)
+//@   site call Sum256: assert arg(0) == ret(SerializeCompressed) && called(ScalarMultNonConst) && called(ToAffine)
+//@   site call SerializeCompressed: assert arg(0) == *ret(NewPublicKey)
+//@   ensures result1 == nil && called(Sum256) && result0 == ret(Sum256)
